@@ -62,6 +62,8 @@ type callLog struct {
 	calls []call
 	// schemas of the children as seen by a checker when it ran
 	childSchemasOK bool
+	// prefix of the schemas handed out in the current pass
+	schemaTag string
 }
 
 // interp is the interpreter attached to non-terminals. Which optional
@@ -106,7 +108,7 @@ func (c checker) StaticCheck(userCtx interface{}, node parsley.NonTerminalNode) 
 	// children with a checker must already carry their final schema
 	for _, k := range c.sp.kids {
 		if k.kind == 3 || k.kind == 2 {
-			if k.ikind == 1 && k.node.Schema() != "schema "+itoa(k.id) {
+			if k.ikind == 1 && k.node.Schema() != c.log.schemaTag+"schema "+itoa(k.id) {
 				c.log.childSchemasOK = false
 			}
 		}
@@ -114,7 +116,7 @@ func (c checker) StaticCheck(userCtx interface{}, node parsley.NonTerminalNode) 
 	if c.fail {
 		return nil, parsley.NewErrorf(node.Pos(), "check failed at "+itoa(c.sp.id))
 	}
-	return "schema " + itoa(c.sp.id), nil
+	return c.log.schemaTag + "schema " + itoa(c.sp.id), nil
 }
 
 type transformer struct{ *interp }
@@ -353,6 +355,34 @@ func C13_StaticCheck() {
 			rt.Assert(s.node.Schema() == "schema "+itoa(s.id), "check/schema-stored")
 		} else {
 			rt.Assert(s.node.Schema() == nil, "check/no-schema-without-checker")
+		}
+	}
+	// a second pass over the same tree (the nodes now carry schemas) with
+	// checkers that hand out different schemas: the same calls in the same
+	// order, and the new schemas recorded
+	b.log.calls = nil
+	b.log.schemaTag = "second "
+	err2 := parsley.StaticCheck(nil, root.node)
+	if len(b.log.calls) != len(want) {
+		rt.Fail("check/second-pass-call-count", "expected "+itoa(len(want))+" checker calls in the second pass, saw "+itoa(len(b.log.calls)))
+		return
+	}
+	for i := range want {
+		if b.log.calls[i] != want[i] {
+			rt.Fail("check/second-pass-order", "")
+			return
+		}
+	}
+	rt.Assert(b.log.childSchemasOK, "check/second-pass-children-schemas-final")
+	rt.Assert((err2 == nil) == (failed < 0), "check/second-pass-error")
+	for _, s := range b.all {
+		if s.kind < 2 || s.ikind != 1 {
+			continue
+		}
+		for _, c := range want {
+			if c.id == s.id {
+				rt.Assert(s.node.Schema() == "second schema "+itoa(s.id), "check/second-pass-schema-stored")
+			}
 		}
 	}
 }
